@@ -114,14 +114,14 @@ func Active() bool { return s != nil }
 
 // Result of one execution.
 type Result struct {
-	Points      []Point
-	Races       []string
-	Failure     string // deadlock / divergence / step limit
-	Steps       int
-	Threads     int
-	SyncOps     int
-	MemOps      int
-	Signature   string
+	Points    []Point
+	Races     []string
+	Failure   string // deadlock / divergence / step limit
+	Steps     int
+	Threads   int
+	SyncOps   int
+	MemOps    int
+	Signature string
 }
 
 // Run executes body once under the scheduler, replaying prefix and taking
@@ -539,7 +539,9 @@ func YCbCrAt(img interface{ YCbCrAt(x, y int) color.YCbCr }, x, y int) color.YCb
 	return img.YCbCrAt(x, y)
 }
 
-func SetRGBA64(img interface{ SetRGBA64(x, y int, c color.RGBA64) }, x, y int, c color.RGBA64) {
+func SetRGBA64(img interface {
+	SetRGBA64(x, y int, c color.RGBA64)
+}, x, y int, c color.RGBA64) {
 	pix(img, x, y, kindWrite)
 	img.SetRGBA64(x, y, c)
 }
@@ -554,7 +556,9 @@ func SetNRGBA(img interface{ SetNRGBA(x, y int, c color.NRGBA) }, x, y int, c co
 	img.SetNRGBA(x, y, c)
 }
 
-func SetNRGBA64(img interface{ SetNRGBA64(x, y int, c color.NRGBA64) }, x, y int, c color.NRGBA64) {
+func SetNRGBA64(img interface {
+	SetNRGBA64(x, y int, c color.NRGBA64)
+}, x, y int, c color.NRGBA64) {
 	pix(img, x, y, kindWrite)
 	img.SetNRGBA64(x, y, c)
 }
